@@ -1,10 +1,12 @@
 package dart
 
 import (
+	"fmt"
 	"strings"
 
 	an "github.com/benoitkugler/gomacro/analysis"
 	gen "github.com/benoitkugler/gomacro/generator"
+	"golang.org/x/tools/go/packages"
 )
 
 // c06Keys: the keys read by <id>FromJson (json['k'], in order) and written by <id>ToJson ("k" :, in order).
@@ -91,4 +93,165 @@ func HC06_e2e() {
 		ctor = ctor[:strings.Index(ctor, ")")]
 	}
 	vfAssert(strings.Count(ctor, "this.") == len(e.keys), "C06/one-constructor-argument-per-exported-field")
+}
+
+// c06eFromJson: the <id>FromJson helpers a Dart text defines (defs) or uses (uses).
+func c06eFromJson(text string) (defs map[string]int, uses []string) {
+	defs = map[string]int{}
+	from := 0
+	for {
+		i := strings.Index(text[from:], "FromJson(")
+		if i < 0 {
+			return
+		}
+		p := from + i
+		from = p + len("FromJson(")
+		j := p
+		for j > 0 && (text[j-1] == '_' || (text[j-1] >= 'a' && text[j-1] <= 'z') || (text[j-1] >= 'A' && text[j-1] <= 'Z') || (text[j-1] >= '0' && text[j-1] <= '9')) {
+			j--
+		}
+		if j == p {
+			continue
+		}
+		if strings.HasPrefix(text[from:], "dynamic json") {
+			defs[text[j:p]]++
+		} else {
+			uses = append(uses, text[j:p])
+		}
+	}
+}
+
+// HC06_e2eFiles: a tree of real source packages (types of three other packages reached through fields,
+// map keys and a struct of yet another package; one of them also analysed as a source of its own)
+// through the exported Generate: no file imports itself, every import names a generated file, every
+// JSON helper a file uses is defined in that file or in a file it imports, and no file defines a
+// helper twice. Only the exported API of the generator is used.
+func HC06_e2eFiles() {
+	keys := vfTypeCheck("example.com/mod/keys", []string{"/m/keys/keys.go"}, []string{"package keys\n\ntype IdUser int64\n\ntype Kind string\n\nconst (\n\tKA Kind = \"a\"\n\tKB Kind = \"b\"\n)\n"}, nil)
+	other := vfTypeCheck("example.com/mod/other", []string{"/m/other/other.go"}, []string{"package other\n\ntype Thing struct {\n\tValues []int\n\tNames map[string]bool\n}\n"}, nil)
+	sub := vfTypeCheck("example.com/mod/sub", []string{"/m/sub/sub.go"}, []string{"package sub\n\nimport \"example.com/mod/other\"\n\ntype Inner struct {\n\tL []int\n\tM map[string]bool\n\tO other.Thing\n}\n"}, []*packages.Package{other})
+	variants := []string{
+		"type Root struct {\n\tIn sub.Inner\n}\n\nvar _ keys.IdUser\n",
+		"type Root struct {\n\tByUser map[keys.IdUser]string\n}\n\nvar _ sub.Inner\n",
+		"type Root struct {\n\tByKind map[keys.Kind]sub.Inner\n}\n",
+		"type Root struct {\n\tL [][]int\n\tIn sub.Inner\n\tByUser map[keys.IdUser][]keys.Kind\n}\n",
+	}
+	src := "package app\n\nimport (\n\t\"example.com/mod/keys\"\n\t\"example.com/mod/sub\"\n)\n\n" + variants[vfChoice("root", len(variants))]
+	app := vfTypeCheck("example.com/mod/app", []string{"/m/app/app.go"}, []string{src}, []*packages.Package{keys, sub})
+	alsoOther := vfChoice("otherIsASource", 3) // 0: no, 1: after the root file, 2: before it
+	texts := map[string]string{}
+	imports := map[string][]string{}
+	panicked, rt, msg := vfCatch(func() {
+		anas := []*an.Analysis{an.NewAnalysisFromFile(app, "/m/app/app.go")}
+		switch alsoOther {
+		case 1:
+			anas = append(anas, an.NewAnalysisFromFile(other, "/m/other/other.go"))
+		case 2:
+			anas = append([]*an.Analysis{an.NewAnalysisFromFile(other, "/m/other/other.go")}, anas...)
+		}
+		for _, out := range Generate("/home/u/go/src/example.com/mod/app", anas) {
+			text := gen.WriteDeclarations(out.Content)
+			texts[out.Filename] = text
+			for _, l := range strings.Split(text, "\n") {
+				l = strings.TrimSpace(l)
+				if strings.HasPrefix(l, "import '") {
+					imports[out.Filename] = append(imports[out.Filename], strings.TrimSuffix(strings.TrimPrefix(l, "import '"), "';"))
+				}
+			}
+		}
+	})
+	vfObserve("outcome", msg)
+	vfAssert(!rt && !panicked, "C06/catalogue-is-accepted-by-the-generator")
+	if panicked {
+		vfStop()
+	}
+	okSelf, okImports, okOnce, okClosure, okTypes := true, true, true, true, true
+	for file, text := range texts {
+		defs, uses := c06eFromJson(text)
+		for _, n := range defs {
+			okOnce = okOnce && n == 1
+		}
+		for _, imp := range imports[file] {
+			okSelf = okSelf && imp != file
+			_, exists := texts[imp]
+			okImports = okImports && exists
+		}
+		for _, u := range uses {
+			// a definition of the file itself hides the imported ones; otherwise exactly one import must define it
+			n := 0
+			for _, imp := range imports[file] {
+				d, _ := c06eFromJson(texts[imp])
+				n += d[u]
+			}
+			resolved := defs[u] == 1 || (defs[u] == 0 && n == 1)
+			if !resolved {
+				vfObserve("helper", fmt.Sprint(file, ":", u, " defined ", defs[u], " times in the file and ", n, " times in its imports"))
+			}
+			okClosure = okClosure && resolved
+		}
+		// type names: classes, typedefs and enums used by the file
+		declared := func(t string) map[string]int {
+			out := map[string]int{}
+			for _, l := range strings.Split(t, "\n") {
+				l = strings.TrimSpace(l)
+				for _, pre := range []string{"class ", "typedef ", "enum ", "abstract class "} {
+					if strings.HasPrefix(l, pre) {
+						name := strings.TrimSpace(l[len(pre):])
+						k := 0
+						for k < len(name) && (name[k] == '_' || (name[k] >= 'a' && name[k] <= 'z') || (name[k] >= 'A' && name[k] <= 'Z') || (name[k] >= '0' && name[k] <= '9')) {
+							k++
+						}
+						out[name[:k]]++
+					}
+				}
+			}
+			return out
+		}
+		own := declared(text)
+		for _, l := range strings.Split(text, "\n") {
+			l = strings.TrimSpace(l)
+			if !strings.HasPrefix(l, "final ") {
+				continue
+			}
+			decl := l[len("final "):]
+			if sp := strings.LastIndex(decl, " "); sp > 0 {
+				decl = decl[:sp] // the type of the field
+			}
+			k := 0
+			for k < len(decl) {
+				c := decl[k]
+				if !(c >= 'A' && c <= 'Z') {
+					for k < len(decl) && (decl[k] == '_' || (decl[k] >= 'a' && decl[k] <= 'z') || (decl[k] >= 'A' && decl[k] <= 'Z') || (decl[k] >= '0' && decl[k] <= '9')) {
+						k++
+					}
+					k++
+					continue
+				}
+				j := k
+				for j < len(decl) && (decl[j] == '_' || (decl[j] >= 'a' && decl[j] <= 'z') || (decl[j] >= 'A' && decl[j] <= 'Z') || (decl[j] >= '0' && decl[j] <= '9')) {
+					j++
+				}
+				name := decl[k:j]
+				k = j
+				if name == "String" || name == "Map" || name == "List" || name == "DateTime" {
+					continue
+				}
+				n := 0
+				for _, imp := range imports[file] {
+					n += declared(texts[imp])[name]
+				}
+				resolved := own[name] == 1 || (own[name] == 0 && n == 1)
+				if !resolved {
+					vfObserve("type", fmt.Sprint(file, ":", name, " declared ", own[name], " times in the file and ", n, " times in its imports"))
+				}
+				okTypes = okTypes && resolved
+			}
+		}
+	}
+	vfObserve("files", len(texts))
+	vfAssert(okSelf, "C06/no-file-imports-itself")
+	vfAssert(okImports, "C06/every-import-names-a-generated-file")
+	vfAssert(okOnce, "C06/json-helpers-defined-once-per-file")
+	vfAssert(okClosure, "C06/every-json-helper-used-resolves-to-one-definition-in-the-file-or-an-imported-file")
+	vfAssert(okTypes, "C06/every-type-name-used-resolves-to-one-declaration-in-the-file-or-an-imported-file")
 }
